@@ -125,6 +125,12 @@ CHECKS = {
                      "without a row, and byte mutations of BER/UPER/XER encodings must fail (or succeed only if the row type's own decoder accepts the bytes) with no sanitizer "
                      "report and nothing allocated after FREE.",
                 note="OER is outside the statement; row types whose own codec does not round-trip a value (C01 findings) are not counted against the open type."),
+    "C19": dict(level="exploration", engine="tdriver", ref="DESIGN.md 4/C19",
+                technique="ThreadSanitizer + differential monitor: N threads run deterministic codec scripts over shared descriptors with seeded jitter between calls; per-thread result logs compared with the same scripts run alone; TSan reports with a library frame are violations",
+                text="TSan build of skeletons + generated code + vf/driver/tdriver.c; 2/4/8/16 threads behind a barrier each decode, encode (all syntaxes, shuffled), validate, "
+                     "print, convert time types, decode the library's own output, compare and free their own structures; repeated with different seeds and thread counts; "
+                     "evidence counts the distinct (operation, type kind) pairs observed overlapping in time.",
+                note="Schedules are sampled; asn_random_fill is not driven; quick: 1 module x 6 runs, thorough: 4 modules x 40 runs."),
 }
 
 PENDING_REASON = "check not implemented yet (bring-up in progress; see DESIGN.md section 9)"
@@ -158,6 +164,7 @@ def main():
         "hdriver": ("vf/driver/hdriver.c", "C driver calling the helper APIs, one call per script line (ASan+UBSan build)"),
         "vdriver": ("vf/driver/vdriver.c", "generic C codec driver over asn_pdu_collection[] with allocation ledger, struct walker, watchdog"),
         "compiler-monitor": ("vf/checks", "runs the asn1c built from the current tree (ASan) on generated modules and judges exit status / output"),
+        "tdriver": ("vf/driver/tdriver.c", "multi-threaded C codec driver (TSan build): per-thread scripts, logs and CLOCK_MONOTONIC call stamps"),
         "tools-monitor": ("vf/checks/c20.py", "runs unber/enber built from the current tree (ASan) against an independent TLV parser"),
     }
     m = {
